@@ -388,7 +388,7 @@ def run_shard(k, seed, tier):
     stats = Stats()
     n = 500 if tier == 'quick' else 8000
     feats = (ALL_FEATURES if k % 4 == 0 else SEQ_FEATURES) - {'faults'}
-    strat = st.tuples(programs(features=feats, size=dict(main_stmts=8, funcs=5)), st.sampled_from(RULES), st.data())
+    strat = st.tuples(programs(features=feats, size=dict(main_stmts=8, funcs=6, overload_pct=45)), st.sampled_from(RULES), st.data())
 
     def chk(v):
         case, rule, data = v
